@@ -4,6 +4,9 @@ import (
 	"go/ast"
 
 	"golang.org/x/tools/go/ssa"
+
+	"polyverif/eng"
+	"polyverif/ir"
 )
 
 // blankEof: in the source, the last result of this call is assigned to the blank identifier
@@ -33,4 +36,45 @@ func blankEof(fn *ssa.Function, cl *ssa.Call) bool {
 		return false
 	})
 	return found
+}
+
+// eofHelperFails: the sink is a return whose error result is computed by a module helper from an
+// end-of-input answer that is assumed true; the helper, evaluated abstractly with that argument true (the
+// others unknown), answers a non-nil error.
+func eofHelperFails(s ir.Sink, isAssumedEof func(ssa.Value) bool) bool {
+	ret, ok := s.Instr.(*ssa.Return)
+	if !ok || len(ret.Results) == 0 {
+		return false
+	}
+	v := ret.Results[len(ret.Results)-1]
+	if s.Via != nil {
+		if phi, isPhi := v.(*ssa.Phi); isPhi && phi.Block() == ret.Block() {
+			for i, p := range ret.Block().Preds {
+				if p == s.Via.From {
+					v = phi.Edges[i]
+				}
+			}
+		}
+	}
+	cl, _ := ir.CallOf(v)
+	if cl == nil {
+		return false
+	}
+	h := cl.Common().StaticCallee()
+	if h == nil || !ir.InModule(h) || len(h.Blocks) == 0 {
+		return false
+	}
+	args := make([]eng.AVal, len(cl.Common().Args))
+	any := false
+	for i, a := range cl.Common().Args {
+		if isAssumedEof(a) {
+			args[i] = eng.ABoolV(true)
+			any = true
+		}
+	}
+	if !any {
+		return false
+	}
+	res, okE := eng.AEval(h, args, eng.AEvalOpts{})
+	return okE && len(res) > 0 && res[len(res)-1].K == eng.ANonNil
 }
